@@ -509,8 +509,8 @@ variable {γ ι : Type}
 
 /-- **Every rule firing of the fragment replaces an expression by one that is defined whenever the replaced one
     is, with the same value** — for every dependents map.  Derived from `C04_plain_wf/_values`, `C04_filter_*`,
-    `C04_io_labels/_values`, `C04_assign_wf/_values`, `C04_rename_wf/_values`, `C04_binop_*`, `C04_merge_wf`,
-    `C04_merge_labels_partial`, `C04_concat_wf/_labels/_values`, `C04_projdown_*` and `C03_or_factoring`
+    `C04_io_labels/_values`, `C04_assign_wf/_values`, `C04_rename_wf/_values`, `C04_binop_*`, `C04_merge_pruned_wf`,
+    `C04_merge_labels_partial`, `C04_merge_values_left/right_partial`, `C04_concat_labels/_declared/_values`, `C04_projdown_*` and `C03_or_factoring`
     (Lemmas/FragRules, FragAssign, FragConcat, FragMerge, FragPred). -/
 theorem C01_fragment_rules_sound (I : Interp γ ι) (hI : MaskLaws I) : RulesSound (fragP I).toSem fragRules where
   down_ok := fun _ _ h v hv => ⟨v, fragDown_sound I h v hv, rfl⟩
